@@ -39,6 +39,14 @@ def thread_stack(ident):
 HANG = object()
 
 
+class Raised:
+    """Returned by Bounded when the call raised (distinguishes a raised exception
+    from an exception object that was *returned*, e.g. by worker.error)."""
+
+    def __init__(self, exc):
+        self.exc = exc
+
+
 class Bounded:
     """I5: run a client-boundary call in a daemon thread under a deadline.  The
     call event is written before invoking, the return after; on expiry two stack
@@ -74,7 +82,7 @@ class Bounded:
         if 'exc' in box:
             e = box['exc']
             self.log.ev('raise', name=name, dur=dur, etype=type(e).__name__, eargs=repr(getattr(e, 'args', None))[:300], tb=box['tb'][-1500:])
-            return e
+            return Raised(e)
         self.log.ev('return', name=name, dur=dur, value=repr(box.get('ret'))[:300])
         return box.get('ret')
 
